@@ -417,9 +417,21 @@ fn g_far_exact(emit: &mut dyn FnMut(String)) {
     }
 }
 
+/// the `u16` length prefix of location lists up to DWARF 4: an expression of 65535 bytes is written,
+/// one of 65536 bytes is `ValueTooLarge` (DWARF 5 and attributes take both: ULEB128)
+fn g_u16_prefix(emit: &mut dyn FnMut(String)) {
+    for (place, ver) in [(Place::Loc, 2u16), (Place::Loc, 4), (Place::Loc, 5), (Place::Attr, 3)] {
+        for d in [65531usize, 65532] {
+            let enc = GEnc { e: if d % 2 == 0 { "be" } else { "le" }, asz: 4, fmt: "32", ver };
+            emit(line(place, &enc, "-/-/R12", &[format!("implicit_value:{}", hex(&vec![0xa5u8; d]))]));
+        }
+    }
+}
+
 pub fn gen(ctx: &Ctx, emit: &mut dyn FnMut(String)) {
     g_sweep(emit);
     g_far_exact(emit);
+    g_u16_prefix(emit);
     let mut r = ctx.rng(15);
     g_far(&mut r, emit, ctx.n(60, 600));
     // structured-valid: random programs whose references must all resolve
